@@ -412,21 +412,24 @@ Definition meas_nz_entry_ok (dz : Q) (sp : res) (ss pp : option res) (nz : oq) :
   let p := opt_or pp res_one in
   if negb (res_defined sp && res_defined s && res_defined p) then true
   else
-    let a := res_value sp in
-    let vs := res_value s in
-    let vp := res_value p in
-    if Qleb (Qabs vs) (1024 * res_err s) || Qleb (Qabs vp) (1024 * res_err p) then true
+    (* Qred: the exact values are quotients of sums of unreduced fractions *)
+    let a := Qred (res_value sp) in
+    let vs := Qred (res_value s) in
+    let vp := Qred (res_value p) in
+    let es := Qred (res_err s) in
+    let ep := Qred (res_err p) in
+    if Qleb (Qabs vs) (1024 * es) || Qleb (Qabs vp) (1024 * ep) then true
     else
-      let D := nz_radicand dz vs vp in
+      let D := Qred (nz_radicand dz vs vp) in
       if Qltb 0 D then
         match nz with
         | None => false
         | Some x =>
-            let ea := res_err sp in
+            let ea := Qred (res_err sp) in
             (Qleb (Qabs a) ea || Z.eqb (qsgn x) (qsgn a))
             && Qleb (Qabs (x * x * D - a * a))
                     (4 * (2 * Qabs a * ea + ea * ea
-                          + a * a * (res_err s / Qabs vs + res_err p / Qabs vp) + 4 * tol48 * (a * a)))
+                          + a * a * (es / Qabs vs + ep / Qabs vp) + 4 * tol48 * (a * a)))
         end
       else match nz with Some _ => false | None => true end.
 Definition meas_nz_row_ok (dz : list Q) (sp : list res) (ss pp : option (list res)) (nz : list oq) : bool :=
@@ -448,13 +451,14 @@ Definition mcf_samples (right : bool) (edges : list Q) (N : nat) (c : mcf) : lis
 (* flag0: RedshiftData.from_corrfuncs(cross, ref, unk).data; flag1: every row of .samples *)
 Definition c04_meas_nz_case (right : bool) (edges dz : list Q) (N : nat) (cross : mcf) (ref unk : option mcf)
            (nz_d : list oq) (nz_s : list (list oq)) : nat :=
+  let cs := mcf_samples right edges N cross in
+  let rs := option_map (mcf_samples right edges N) ref in
+  let us := option_map (mcf_samples right edges N) unk in
   code [ meas_nz_row_ok dz (mcf_data right edges cross) (option_map (mcf_data right edges) ref)
                         (option_map (mcf_data right edges) unk) nz_d;
          Nat.eqb (length nz_s) N
-         && forallb (fun k => meas_nz_row_ok dz (nth k (mcf_samples right edges N cross) [])
-                                (option_map (fun c => nth k (mcf_samples right edges N c) []) ref)
-                                (option_map (fun c => nth k (mcf_samples right edges N c) []) unk)
-                                (nth k nz_s [])) (seq 0 N) ].
+         && forallb (fun k => meas_nz_row_ok dz (nth k cs []) (option_map (fun m => nth k m []) rs)
+                                (option_map (fun m => nth k m []) us) (nth k nz_s [])) (seq 0 N) ].
 
 (* A different implementation, for contrast (Proofs: skip_agrees_populated, skip_refuted): the weight
    of cell (bin, patch) of one side is stored only when the partner's cell of the same patch holds
